@@ -2,6 +2,7 @@
 //! calls the real library (built from /repo's working tree with the hook cfg on) and writes down
 //! what it saw as ndjson. It contains no oracle: every judgement is made by TLC on the records.
 mod big;
+mod fwit;
 mod gen;
 mod ops;
 mod rng;
@@ -51,9 +52,12 @@ fn rec_ops(m: &HashMap<String, String>) {
         "f32" => ops::warm_up(true),
         _ => {}
     }
+    let (efrom, estride) = (geti(m, "enum-from", 0) as u64, geti(m, "enum-stride", 1) as u64);
     for i in skip..count {
         let fam = fams[(i as usize) % fams.len()];
         let sd = seed.wrapping_mul(1_000_003).wrapping_add(i);
+        // enumerated families (en:...) read their operand pair from this position
+        gen::ENUM_POS.store(efrom + (i / fams.len() as u64) * estride, std::sync::atomic::Ordering::SeqCst);
         let s = match kind {
             "single" => ops::sess_single(sid0 + i, fam, sd, &o),
             "five" => ops::sess_five(sid0 + i, fam, sd, &o),
@@ -70,6 +74,7 @@ fn rec_ops(m: &HashMap<String, String>) {
             "pure" => ops::sess_pure(sid0 + i, fam, sd, &o),
             "deg" => ops::sess_deg(sid0 + i, fam, sd, &o),
             "history" => ops::sess_history(sid0 + i, fam, sd, &o),
+            "fwit" | "fwit32" | "fchain" => fwit::sess_fwit(sid0 + i, fam, sd, &o, kind),
             _ => panic!("unknown kind {}", kind),
         };
         writeln!(out, "{}", s.finish()).unwrap();
@@ -114,11 +119,13 @@ fn main() {
     match args[1].as_str() {
         "rec-ops" => rec_ops(&m),
         "rec-tri" => rec_tri(&m),
+        "enum-total" => println!("{}", gen::enum_total(gets(&m, "family", "").trim_start_matches("rot-"))),
         "rec-fixtures" => ops::rec_fixtures(gets(&m, "file", "")),
         "rec-stages" => {
             let fams: Vec<&str> = gets(&m, "family", "cx").split(',').collect();
             stages::rec_stages(m.contains_key("f32"), &fams, geti(&m, "count", 10) as u64, geti(&m, "seed", 1) as u64, geti(&m, "kmax", 3),
-                geti(&m, "max-edges", 60) as usize, geti(&m, "matrix", 40) as usize, geti(&m, "rid0", 1) as u64)
+                geti(&m, "max-edges", 60) as usize, geti(&m, "matrix", 40) as usize, geti(&m, "rid0", 1) as u64,
+                geti(&m, "enum-from", 0) as u64, geti(&m, "enum-stride", 1) as u64)
         }
         "rec-stages-tri" => stages::rec_stages_tri(geti(&m, "n", 2), geti(&m, "l", 840), geti(&m, "from", 0) as usize, geti(&m, "stride", 1) as usize,
             geti(&m, "matrix", 40) as usize, geti(&m, "rid0", 1) as u64),
